@@ -18,7 +18,7 @@ RULE = ("pairs of files (valid root chains in OpenPGP mode, valid delegations, e
         "dependency; gpg-sign and gpg-key-lookup with the dependency stood in for by a signer with outputs fixed per case (fingerprint spellings, raising signer, "
         "unknown key, broken / missing / re-laid-out files); the interactive modify-metadata editor driven by scripts of typed lines on stdin (choices, keys, thresholds, early end of input).  Observables: exit status, success line on stdout, file bytes.  non-trivial = a run whose files both parse; distinct by (entry point, files)")
 
-THEOREMS = ["exit_zero_iff", "verify_codes", "sign_zero_only_if_signed", "sign_bad_key_untouched", "gpg_sign_zero_iff_signed", "gpg_commands_need_dependency", "gpg_sign_end_to_end", "editLoop_writes", "edit_session_files"]
+THEOREMS = ["exit_zero_iff", "verify_codes", "sign_zero_only_if_signed", "sign_bad_key_untouched", "gpg_sign_zero_iff_signed", "gpg_commands_need_dependency", "gpg_sign_end_to_end", "editLoop_writes", "edit_session_files", "rejected_nonzero_any_stdout", "absent_stdout_same_status", "failing_stdout_status"]
 
 REPO = os.environ.get("CCT_REPO", "/repo")
 ENTRY_POINTS = ["script", "modulePkg", "moduleCli"]
@@ -266,23 +266,42 @@ def run(ck: Check) -> None:
             p = subprocess.run(["/bin/sh", "-c", 'exec "$@" >&-', "sh"] + cmd, env=env, cwd=d, stderr=subprocess.PIPE, timeout=120)
         return p.returncode, p.stderr.decode("utf-8", "replace")
     cjobs = []
-    for kind in ("root-unsigned", "deleg-unsigned", "root-skip", "type-mismatch", "unknown-role", "root-foreign"):
+    for kind in ("root-unsigned", "deleg-unsigned", "root-skip", "type-mismatch", "unknown-role", "root-foreign", "root-ok", "deleg-ok", "missing-untrusted", "not-json"):
         if kind not in by_kind:
             continue
         i, tb, ub, t, u = by_kind[kind]
         pd = os.path.join(d, f"cond-{kind}")
         os.makedirs(pd, exist_ok=True)
-        open(os.path.join(pd, "t.json"), "wb").write(tb)
-        open(os.path.join(pd, "u.json"), "wb").write(ub)
-        for ep in ENTRY_POINTS:
+        for nm, b in (("t.json", tb), ("u.json", ub)):
+            if b is not None:
+                open(os.path.join(pd, nm), "wb").write(b)
+            elif os.path.exists(os.path.join(pd, nm)):
+                os.unlink(os.path.join(pd, nm))
+        accepted_kind = kind in ("root-ok", "deleg-ok")
+        for ep in (ENTRY_POINTS if not accepted_kind else ENTRY_POINTS[:1]):
             for cond in ("pipe-gone-unbuffered", "pipe-gone", "dev-full-unbuffered", "dev-full", "closed"):
-                cjobs.append((kind, ep, cond, ["verify-metadata", os.path.join(pd, "t.json"), os.path.join(pd, "u.json")]))
+                cjobs.append((kind, ep, cond, ["verify-metadata", os.path.join(pd, "t.json"), os.path.join(pd, "u.json")], i))
     with ThreadPoolExecutor(max_workers=16) as ex:
         couts = list(ex.map(lambda j: run_cond(j[1], j[3], j[2]), cjobs))
-    for (kind, ep, cond, args), (rc, err) in zip(cjobs, couts):
+    # the model of the command under each standard-output state (Model/Cli.lean: cliVerifyUnder; theorems rejected_nonzero_any_stdout, absent_stdout_same_status)
+    state_of = lambda cond: "absent" if cond == "closed" else "failing"
+    mlines = ["cli verifyio " + state_of(j[2]) + lines[j[4]][len("cli verify"):] for j in cjobs]
+    manswers = ck.driver.run(mlines, [j[4] for j in cjobs])
+    ck.correspondences.add("corr:cli-verify-metadata/exit-status-under-stdout-conditions")
+    for (kind, ep, cond, args, _i), (rc, err), m_, ml in zip(cjobs, couts, manswers, mlines):
         ck.evaluations += 1
         ck.oracle_checks += 1
         ck.count(f"verify-stdout-{cond}:exit{rc}")
+        mexit = int(m_.split("exit=")[1]) if "exit=" in m_ else -1
+        if mexit != rc:
+            ck.mismatch_total += 1
+            kk = f"cli-verify-stdout:{cond}:{kind}:impl={rc}:model={mexit}"
+            ck.mismatch_kinds[kk] = ck.mismatch_kinds.get(kk, 0) + 1
+            if len(ck.mismatches) < 12:
+                ck.mismatches.append({"corr": "corr:cli-verify-metadata/exit-status-under-stdout-conditions", "line": ml[:1200], "impl": f"exit={rc}", "model": m_, "tag": ep + ":" + kind + ":" + cond,
+                                      "meta": {"stderr": err[-200:]}, "stdout_encoding": "utf-8"})
+        if kind in ("root-ok", "deleg-ok"):
+            continue
         if rc == 0:
             ck.violation("verify-metadata: a rejected pair exits with status zero when standard output cannot take the report",
                          {"entry_point": ep, "case": kind, "stdout": cond, "stderr_tail": err[-300:]}, f"cli-verify-stdout:{cond}:{kind}")
